@@ -16,6 +16,7 @@ type GenCfg struct {
 	Subs        bool // subtype labels
 	Ifaces      bool
 	Ptrs        bool
+	Arrays      bool // two unnamed array types join the universe (set per property, not by SwarmCfg)
 	Providers   bool // zero-input converters
 	MultiIn     bool // converters with 2-3 inputs
 	MultiOut    bool
@@ -63,6 +64,9 @@ func newGenState(r *simrt.RNG, cfg GenCfg) *genState {
 	g.univ = append(g.univ, perm[:n]...)
 	if cfg.Ptrs {
 		g.univ = append(g.univ, PtrBase+r.Intn(NumPtr))
+	}
+	if cfg.Arrays {
+		g.univ = append(g.univ, ArrA, ArrB)
 	}
 	if cfg.Ifaces {
 		it := IfaceBase + r.Intn(NumIface)
